@@ -34,6 +34,13 @@ class C01(Property):
                   "S1 S2 S2 T5:97 F F S2 S2 T5: T5:97 F F F", "S1 T6:233 T5:195.169 F", "S1 X100 T100:43 X102 T5:43 F"]:
             for m in ["f", "0", "3"]:
                 res.append(("corpus", "H d %s %s" % (m, c)))
+        # hash-colliding leaves under two or three levels of otherwise identical parents (the cache compares the DIRECT children
+        # of a candidate; what lies deeper is compared by green-node equality)
+        for d in (2, 3, 4):
+            for a, b in (("97", "98"), ("97", ""), ("97.98", "98.97")):
+                chain = lambda x: " ".join(["S%d" % (2 + i) for i in range(d)] + ["T5:" + x] + ["F"] * d)
+                for m in ("0", "3", "f"):
+                    res.append(("corpus", "H d %s S1 %s %s %s F" % (m, chain(a), chain(b), chain(a))))
         maxlen = 7 if tier == "quick" else 9
         for ops in G.enum_balanced(maxlen):
             for m in (["f", "0", "3"] if len(ops) <= (7 if tier == "quick" else 8) else ["0"]):
